@@ -319,6 +319,42 @@ func (fr *oFrame) stmt(s ast.Stmt) oCtl {
 		return oNormal
 	case *ast.AssignStmt:
 		return fr.assign(s)
+	case *ast.IncDecStmt:
+		return fr.store(s.X, oTop{"arithmetic ++/--"}, false)
+	case *ast.ForStmt:
+		// bounded unrolling: only loops that terminate within a few abstract
+		// iterations are inside the fragment (e.g. the "nudge until different" loop)
+		saved := fr.env
+		fr.env = &oEnv{vars: map[types.Object]*oval{}, parent: saved}
+		defer func() { fr.env = saved }()
+		if s.Init != nil {
+			if c := fr.stmt(s.Init); c != oNormal {
+				return c
+			}
+		}
+		for iter := 0; ; iter++ {
+			if iter > 8 {
+				return fr.abort("loop at %s does not terminate within 8 abstract iterations", fr.it.p.Position(s.Pos()))
+			}
+			if s.Cond != nil {
+				cv := fr.eval(s.Cond)
+				b, ok := cv.(oBool)
+				if !ok {
+					return fr.abort("loop condition is %s at %s", showVal(cv), fr.it.p.Position(s.Cond.Pos()))
+				}
+				if !bool(b) {
+					return oNormal
+				}
+			}
+			if c := fr.stmt(s.Body); c != oNormal {
+				return c
+			}
+			if s.Post != nil {
+				if c := fr.stmt(s.Post); c != oNormal {
+					return c
+				}
+			}
+		}
 	case *ast.SwitchStmt:
 		saved := fr.env
 		fr.env = &oEnv{vars: map[types.Object]*oval{}, parent: saved}
@@ -804,6 +840,16 @@ func (fr *oFrame) call(call *ast.CallExpr) []oval {
 					return one(oFloat{oInf})
 				}
 				return one(oFloat{-oInf})
+			}
+		case "Nextafter":
+			// the next float towards ±Inf lies strictly between the rank and its neighbour
+			a, aok := args[0].(oFloat)
+			b, bok := args[1].(oFloat)
+			if aok && bok && (b.r >= oInf || b.r <= -oInf) && a.r < oInf && a.r > -oInf {
+				if b.r > 0 {
+					return one(oFloat{a.r + 1})
+				}
+				return one(oFloat{a.r - 1})
 			}
 		case "Min", "Max":
 			a, aok := args[0].(oFloat)
